@@ -222,9 +222,15 @@ fn gen_capacity_cases(rng: &mut Rng, quick: bool, emit: &mut dyn FnMut(String)) 
             "G", "x", "G;x", "G;u1500", "w", "G;w;s",
             "c1026;G;p1027;r0", "C1027;G;p1026;p1028;r1;r0", "p1026;G;p1026;r1025;r1025",
             "G;p1026;p1027;p1028;r1026;r0;x",
+            // a caller that was HANDED a permit is dropped while another parked caller has none: the permit moves on
+            "G;g;S1030;c1026;G;p1027;p1028;r0",
+            "G;g;S1030;C1027;c1026;p1028;G;p1029;r1;r0",
+            "G;g;S1030;c1026;c1027;c1028;x",
         ] {
             let n = rng.range(1026, 1034) as usize;
             let wc = rng.below(2);
+            // `S1030` in a tail = 1030 further submissions
+            let tail = tail.replace("S1030", &vec!["s"; 1030].join(";"));
             emit(format!("conn {} g;{};{}", wc, vec!["s"; n].join(";"), tail));
         }
         // the channel is exactly full / one short of full
@@ -298,6 +304,38 @@ pub fn generate(rng: &mut Rng, tier: Tier, emit: &mut dyn FnMut(String)) {
             let h = *rng.pick(&[255usize, 256, 257, 258, 300, 511, 512, 513, 514, 700, 1023, 1024, 1025, 1026, 2049]);
             let (rev, gated) = (rng.bool(), h <= 1000 && rng.chance(1, 3));
             emit(gen_conn_many(rng, h, rev, gated));
+        }
+    }
+    // ALL 32768 ids in flight, some of their callers gone for more than a second (old orphans), more submissions, the
+    // late answers of the abandoned requests out of order: an orphaned id is NOT free however old it is - the new
+    // requests get UnableToAllocStreamId until an answer really frees an id. Oracle only in this form (`connx`: the
+    // model's line for 32768 callers takes minutes); the same schedule WITH the model's line runs in the thorough tier.
+    {
+        let exhaust = vec!["s"; 32768].join(";");
+        let mut tails = vec!["c5;c77;c32767;t1100;s;s;r77;s;r5;r32765;s;s;t1000;s;r0".to_owned()];
+        if !quick {
+            for _ in 0..3 {
+                let mut t: Vec<String> = Vec::new();
+                let k = rng.range(1, 6);
+                for _ in 0..k {
+                    t.push(format!("c{}", rng.below(32768)));
+                }
+                t.push(format!("t{}", *rng.pick(&[999u32, 1000, 1001, 2500])));
+                for _ in 0..rng.range(1, 4) {
+                    t.push("s".into());
+                }
+                for _ in 0..rng.range(1, 5) {
+                    t.push(format!("r{}", rng.below(32700)));
+                    t.push("s".into());
+                }
+                tails.push(t.join(";"));
+            }
+        }
+        for t in &tails {
+            emit(format!("connx 1 {};{}", exhaust, t));
+        }
+        if !quick {
+            emit(format!("conn 1 {};{}", exhaust, tails[0]));
         }
     }
     if !quick {
@@ -617,6 +655,9 @@ pub(crate) struct ConnSim {
     /// labels of the events the connection forwarded (only with an event sender)
     pub events_rx: Option<tokio::sync::mpsc::Receiver<String>>,
     pub events_seen: Vec<String>,
+    /// the reader may be blocked by this test's own doing (an event channel with one slot that nobody drains): the
+    /// "answered / closed, so it must complete / break" oracles do not apply
+    pub reader_may_block: bool,
 }
 
 pub(crate) fn tag_of(body: &[u8]) -> String {
@@ -635,15 +676,22 @@ impl ConnSim {
 
     /// `events`: the connection gets an event sender (frames on stream -1 go through `handle_event`).
     pub fn new_ev(write_coalescing: bool, keepalive: Option<(Duration, Duration)>, events: bool) -> Self {
+        Self::new_ev_mode(write_coalescing, keepalive, if events { Some(0) } else { None })
+    }
+
+    /// `events`: `Some(mode)` = an event sender whose channel is drained (0), has lost its receiver (1), or has one
+    /// slot and is never drained (2).
+    pub fn new_ev_mode(write_coalescing: bool, keepalive: Option<(Duration, Duration)>, events: Option<u8>) -> Self {
         let (client, server) = tokio::io::duplex(1 << 22);
         let gate = Arc::new(Mutex::new(Gate::default()));
         let gated = Gated { inner: client, gate: gate.clone() };
-        let (conn, broken_rx, events_rx) = if events {
-            let (c, b, e) = RawConnection::spawn_with_events(
+        let (conn, broken_rx, events_rx) = if let Some(mode) = events {
+            let (c, b, e) = RawConnection::spawn_with_events_mode(
                 gated,
                 keepalive.map(|k| k.0),
                 keepalive.map(|k| k.1),
                 write_coalescing,
+                mode,
             );
             (c, b, Some(e))
         } else {
@@ -653,6 +701,7 @@ impl ConnSim {
         ConnSim {
             events_rx,
             events_seen: Vec::new(),
+            reader_may_block: events == Some(2),
             conn: Arc::new(conn),
             broken_rx,
             broken: None,
@@ -948,7 +997,7 @@ impl ConnSim {
         self.poll_broken();
         // ORACLE (C10): the peer closed / sent an unsolicited frame ⇒ the connection is reported broken; and once
         // it is broken no request is left hanging
-        if let (Some(why), None) = (&self.must_break, &self.broken) {
+        if let (Some(why), None, false) = (&self.must_break, &self.broken, self.reader_may_block) {
             ctx.fail(format!("{} but the connection was not broken", why));
         }
         if self.broken.is_some() {
@@ -960,7 +1009,7 @@ impl ConnSim {
         }
         // ORACLE: a request whose answer the server sent in full on the stream that carried it, that was not
         // abandoned, on a connection that did not break, has completed with that answer
-        if self.broken.is_none() {
+        if self.broken.is_none() && !self.reader_may_block {
             for (k, o) in self.outcomes.iter().enumerate() {
                 let own = (k as u64).to_be_bytes().to_vec();
                 if let Some((_, _, body)) = self.sent.iter().find(|(to, _, _)| to.as_ref() == Some(&own)) {
@@ -1019,6 +1068,10 @@ pub fn run(case: &str, ctx: &mut Ctx) -> String {
         Some("map") if w.len() <= 2 => run_map(&ops(w.get(1)), ctx),
         Some("conn") if (w.len() == 2 || w.len() == 3) && (w[1] == "0" || w[1] == "1") => {
             run_conn(w[1] == "1", &ops(w.get(2)), ctx)
+        }
+        // the same schedule language, judged by the oracles only (the model's line is the constant `connx`)
+        Some("connx") if (w.len() == 2 || w.len() == 3) && (w[1] == "0" || w[1] == "1") => {
+            if run_conn(w[1] == "1", &ops(w.get(2)), ctx) == "bad-case" { "bad-case".to_owned() } else { "connx".to_owned() }
         }
         _ => "bad-case".to_owned(),
     }
